@@ -78,3 +78,92 @@ Theorem C11_lexset_accessor_preserved :
   exists iS, lexset_get lx has_syn d n o wid L = Some iS /\ accessor a iS = accessor a iA.
 Proof. exact (lexset_accessor_preserved C11_reader_order). Qed.
 Print Assumptions C11_lexset_accessor_preserved.
+
+(* ====================================================================================================================
+   Token boundaries and word identities under a subset; surfaces under any subset.
+   Glue: Model/SubsetPipeline.v (the subset as a parameter of the stages that are handed it); the stages themselves are
+   builder G's Model/Rewrite.v, builder I's Model/Split.v, Model/Lattice.v and this property's Model/Codec.v. *)
+From SudachiVerif Require Import Model.SubsetPipeline Proofs.SubsetBoundaries.
+From SudachiVerif Require Model.Rewrite Model.Split Model.Lattice Model.Buffer Proofs.BufferProofs Proofs.PipelineProofs Proofs.PipelineFull Proofs.SubsetPartition.
+
+(* obligation on Generated/SubsetUse.v: order of the stages of do_tokenize, the only users of the subset, a lattice
+   stage that mentions neither subset nor word info, the WordInfo accessors occurring in the two plugins and the fields
+   the concat functions copy *)
+Fact C11_subset_use : subset_use_ok = true.
+Proof. vm_compute. reflexivity. Qed.
+
+(* (1) the best path is chosen before any word info is loaded: the lattice stage is not given the subset *)
+Theorem C11_lattice_ignores_subset :
+  forall L1 L2 conn n ns, lattice_stage L1 conn n ns = lattice_stage L2 conn n ns.
+Proof. exact lattice_ignores_subset. Qed.
+Print Assumptions C11_lattice_ignores_subset.
+
+(* (2) what the path-rewrite plugins read.  JoinKatakanaOov: ranges, dictionary-side surface, OOV flag, character classes
+   -- node lists agreeing on those are rewritten alike (same outcome, outputs agreeing on them) ... *)
+Theorem C11_rewrite_reads_only_katakana :
+  forall ml op p q, Forall2 kat_fields_eq p q ->
+  ores_rel kat_fields_eq (Rewrite.join_katakana ml op p) (Rewrite.join_katakana ml op q).
+Proof. exact join_katakana_reads_only. Qed.
+Print Assumptions C11_rewrite_reads_only_katakana.
+
+(* ... JoinNumeric additionally normalised form and part-of-speech id; every chain of the two preserves that agreement *)
+Theorem C11_rewrite_reads_only :
+  forall pls p q, Forall2 num_fields_eq p q ->
+  ores_rel num_fields_eq (Rewrite.run_plugins pls p) (Rewrite.run_plugins pls q).
+Proof. exact run_plugins_reads_only. Qed.
+Print Assumptions C11_rewrite_reads_only.
+
+(* what LexiconSet::get_word_info_subset guarantees the later stages, for EVERY loaded subset: requested stored fields as
+   in the full load; the head-word length whenever a split list is loaded; a split list that is not loaded is empty *)
+Theorem C11_getinfo_contract :
+  forall lx d n o, lex_ok lx -> getinfo_ok (fun L w => lexset_get lx true d n o w L).
+Proof. exact (lexset_getinfo_ok C11_reader_order). Qed.
+Print Assumptions C11_getinfo_contract.
+
+(* (3) for every one of the 2^10 requested subsets s, initial mode, mode and order of set_mode / set_subset:
+   - s with SURFACE, POS_ID and NORMALIZED_FORM: every plugin chain ends like with all fields, in outputs that agree on
+     ranges, surface, normalised form, part of speech and OOV flag;
+   - no plugin: for ANY s the nodes keep the ranges and word ids of the best path;
+   - the split stage of mode A / B yields the same sub-tokens (ranges and word ids) as with all fields for ANY s *)
+Theorem C11_boundaries_preserved :
+  forall getinfo, getinfo_ok getinfo ->
+  forall s m0 m order, s < 1024 ->
+  (N.testbit s 0 = true -> N.testbit s 2 = true -> N.testbit s 3 = true ->
+   forall pls path y, rewritten getinfo ALL pls path = Some y ->
+   exists x, rewritten getinfo (loaded_for s m0 m order) pls path = Some x /\ ores_rel num_fields_eq x y)
+  /\ (forall path y, rewritten getinfo ALL nil path = Some y ->
+      exists pr, rewritten getinfo (loaded_for s m0 m order) nil path = Some (Some (Rewrite.Ok pr)) /\ Forall2 from_path path pr)
+  /\ (forall t ps, words_known getinfo ps ->
+      Split.tokenize_mode (hw_of getinfo (loaded_for s m0 m order)) t
+        (units_of getinfo F_a (loaded_for s m0 m order)) (units_of getinfo F_b (loaded_for s m0 m order)) m ps =
+      Split.tokenize_mode (hw_of getinfo ALL) t (units_of getinfo F_a ALL) (units_of getinfo F_b ALL) m ps).
+Proof. exact (boundaries_preserved C11_order_sweep). Qed.
+Print Assumptions C11_boundaries_preserved.
+
+(* (4) whatever subset is loaded, the reported surfaces partition the original text: builder A's composed pipeline
+   theorem instantiated with the ResultNodes and split lists ANY subset produces *)
+Theorem C11_surfaces_partition_any_subset :
+  forall cfg, Buffer.cfg_ok cfg = true -> forall conn o s t ns r i c,
+  Buffer.wf_text o = true -> BufferProofs.Reach cfg o s -> Buffer.cur s = PipelineFull.enc t ->
+  Lattice.nodes_ok (PipelineProofs.nchars (Buffer.cur s)) ns -> (0 < PipelineProofs.nchars (Buffer.cur s))%nat ->
+  Lattice.connect_eos conn (Lattice.insert_all conn (Lattice.reset (PipelineProofs.nchars (Buffer.cur s))) ns) = Some (r, i, c) ->
+  exists es p,
+    lattice_stage 0 conn (PipelineProofs.nchars (Buffer.cur s)) ns = Some es /\ map Lattice.enode es = map Some p /\
+    forall getinfo L path pr pls q ps key m,
+      getinfo_ok getinfo -> subset_of L ALL ->
+      Forall2 (SubsetPartition.pnode_of (Buffer.cur s)) p path ->
+      resolve getinfo L path = Some pr ->
+      Rewrite.run_plugins pls pr = Some (Rewrite.Ok q) ->
+      Forall2 PipelineFull.snode_of q ps ->
+      Split.split_facts_ok = true -> words_known getinfo ps ->
+      PipelineFull.mode_wf (hw_of getinfo ALL) key t (units_of getinfo F_a ALL) (units_of getinfo F_b ALL) m ps ->
+      exists final,
+        Split.tokenize_mode (hw_of getinfo L) t (units_of getinfo F_a L) (units_of getinfo F_b L) m ps = Some final /\
+        let ranges := map (Buffer.map_range (Buffer.m2o s)) (map PipelineFull.sbytes final) in
+        Buffer.partition_b o ranges = true /\
+        concat (map (Buffer.byte_slice o) ranges) = o /\
+        (forall n, In n final ->
+           Buffer.orig_slice s (fst (PipelineFull.sbytes n)) (snd (PipelineFull.sbytes n)) =
+           Some (Buffer.byte_slice o (Buffer.map_range (Buffer.m2o s) (PipelineFull.sbytes n)))).
+Proof. exact SubsetPartition.surfaces_partition_any_subset. Qed.
+Print Assumptions C11_surfaces_partition_any_subset.
